@@ -169,13 +169,12 @@ theorem parse_plainLine (d : Char) (hd : d ∈ preferred) (keep : Bool) (r : Lis
   obtain ⟨h0, hq, _⟩ := preferred_facts d hd
   have := go_line { delim := d, keepQuotes := keep } h0 hq [] (Or.inl rfl) (r.map (fun f => (f, false))) []
     (by simpa using hne)
-    (by intro p hp h; simp only [List.mem_map] at hp; obtain ⟨f, _, rfl⟩ := hp; cases h)
     (by
       intro p hp
       simp only [List.mem_map] at hp
       obtain ⟨f, hf, rfl⟩ := hp
       exact ⟨plainCell_clean f (hc f hf), fun _ => plainCell_noquote d hd f (hc f hf)⟩)
-  simpa [parseLine, plainLine, fieldOut, Function.comp_def] using this
+  simpa [parseLine, plainLine, fieldOut, fieldSeen, Function.comp_def] using this
 
 theorem plainLine_not_blank (d : Char) (r : List Str) (hne : r ≠ []) (hb : ∀ c ∈ r, isBlank c = false) :
     isBlank (plainLine d r) = false := by
